@@ -4697,7 +4697,8 @@ XPath::NodeTester::NodeTester(
                     opPos + 2);
             }
 
-            if(stepType == XPathExpression::eFROM_ATTRIBUTES)
+            if(stepType == XPathExpression::eFROM_ATTRIBUTES ||
+               stepType == XPathExpression::eMATCH_ATTRIBUTE)
             {
                 if (isTotallyWild == true)
                 {
